@@ -302,7 +302,33 @@ func CopyResult(m map[string]interface{}) map[string]interface{} {
 // RunRule executes exactly the rule `name` of the compiled set `src` on a fresh engine with the
 // given injected data and reports what a caller observes: the rule's entry in the result map (if
 // any), the error, and a panic that escaped the execute call.
+// RunRule executes one rule of src on a fresh engine with fresh injected data. When no controlled
+// execution is attached it attaches one for the duration of the call (a single thread, default
+// schedule): a rule that blocks on a lock it already holds, or never ends, then yields the
+// scheduler's verdict - returned as the `panicked` value - instead of hanging the check.
 func RunRule(src *builder.RuleBuilder, name string, inject map[string]interface{}) (val interface{}, has bool, err error, panicked interface{}) {
+	if vsched.Cur() != nil || !AttachRunRule {
+		return runRule(src, name, inject)
+	}
+	ex := vsched.Run(vsched.Options{Horizon: 3000000}, nil, func() {
+		val, has, err, panicked = runRule(src, name, inject)
+	})
+	if ex.Verdict != "" {
+		msg := ex.Verdict
+		if ex.Crash != "" {
+			msg += ": " + strings.SplitN(ex.Crash, "\n", 2)[0]
+		}
+		return nil, false, nil, "the execution did not complete (" + msg + ")"
+	}
+	return
+}
+
+// AttachRunRule is switched off by checks that also make DETACHED pool calls in the same process (the
+// pool hands instances back on goroutines of its own; one of those still running while a controlled
+// execution is attached would call into a scheduler it does not belong to).
+var AttachRunRule = true
+
+func runRule(src *builder.RuleBuilder, name string, inject map[string]interface{}) (val interface{}, has bool, err error, panicked interface{}) {
 	// "__withdc": a callback that receives the data context of the run (for injected functions that
 	// inject further names while the rule is running); not itself injected
 	withDc, _ := inject["__withdc"].(func(*context.DataContext))
